@@ -106,6 +106,7 @@ class Walker:
 
     def __init__(self):
         self.free = []
+        self.ns_stack = []      # enclosing namespaces (functions in a `detail` namespace are not public API)
         self.file = None
         self.defs = []          # (header, name, kind)
         self.funcs = []         # dicts
@@ -175,8 +176,10 @@ class Walker:
         hdr = self.header()
         nid = node.get("id")
         if k in ("NamespaceDecl",):
+            self.ns_stack.append(node.get("name", ""))
             for ch in node.get("inner", []):
                 self.walk(ch, cls, access, templated, depth)
+            self.ns_stack.pop()
             return
         if hdr is None:
             return
@@ -229,7 +232,7 @@ class Walker:
                 return
             r = self.func_record(node, cls, templated)
             self.funcs.append(r)
-            if k == "FunctionDecl" and cls is None:
+            if k == "FunctionDecl" and cls is None and "detail" not in self.ns_stack and "" not in self.ns_stack[1:]:
                 self.free.append((hdr, node.get("name", "?"), r["vparams"]))
             if not self.has_body(node):
                 return
